@@ -65,10 +65,15 @@ class UsedQubitIndicesVisitor(Visitor):
         indices = defaultdict(set)
         # Note: This could be more elegant with a is_macro method on gates
         if isinstance(obj.gate_def, Macro):
-            context = context or {}
-            macro_context = {**context, **obj.parameters}
-            macro_body = obj.gate_def.body
-            return self.visit(macro_body, macro_context)
+            # Substitute the arguments into the macro body (as macro
+            # expansion does) and analyse the result in the caller's
+            # context. Binding the unevaluated arguments to the parameter
+            # names instead goes wrong when an argument mentions a caller's
+            # parameter with the same name as one of the callee's.
+            from .expand_macros import replace_gate
+
+            macro_body = replace_gate(obj, {obj.name: obj.gate_def})
+            return self.visit(macro_body, context=context)
         else:
             for param in obj.used_qubits:
                 if param is all:
